@@ -10,29 +10,39 @@ Import ListNotations.
 Module ChildIterM.
 Import ForestM.
 
-Fixpoint run (fuel : nat) (f : forest) (stack : list (list die)) (chain : list N) : list (die * list N) :=
-  match fuel with
-  | O => []
-  | S fu =>
-    match stack with
-    | [] => []
-    | [] :: st => run fu f st (tl chain)
-    | (k :: ks) :: st =>
-      match import_target f k with
-      | Some t => run fu f (d_kids t :: ks :: st) (d_off k :: chain)
-      | None => (k, chain) :: run fu f (ks :: st) chain
+(* `into t`: the range that is pushed for an imported unit with root t - its children for `child`
+   (child_iterator), all its DIEs but the root for `entry` (all_dies_iterator) *)
+Section Machine.
+  Variable into : die -> list die.
+
+  Fixpoint run (fuel : nat) (f : forest) (stack : list (list die)) (chain : list N) : list (die * list N) :=
+    match fuel with
+    | O => []
+    | S fu =>
+      match stack with
+      | [] => []
+      | [] :: st => run fu f st (tl chain)
+      | (k :: ks) :: st =>
+        match import_target f k with
+        | Some t => run fu f (into t :: ks :: st) (d_off k :: chain)
+        | None => (k, chain) :: run fu f (ks :: st) chain
+        end
       end
-    end
-  end.
+    end.
+
+  (* the specification: imports replaced in place, recursively, each DIE with the imports it came through *)
+  Fixpoint expand (n : nat) (f : forest) (range : list die) (chain : list N) : list (die * list N) :=
+    flat_map (fun k => match import_target f k with
+                       | Some t => match n with O => [] | S m => expand m f (into t) (d_off k :: chain) end
+                       | None => [(k, chain)]
+                       end) range.
+End Machine.
 
 (* `child` of a DIE: its children, whatever chain the DIE itself had starts afresh *)
-Definition children (fuel : nat) (f : forest) (d : die) : list (die * list N) := run fuel f [d_kids d] [].
+Definition children (fuel : nat) (f : forest) (d : die) : list (die * list N) := run d_kids fuel f [d_kids d] [].
 
-(* the specification: imports replaced in place, recursively, each DIE with the imports it came through *)
-Fixpoint expand (n : nat) (f : forest) (kids : list die) (chain : list N) : list (die * list N) :=
-  flat_map (fun k => match import_target f k with
-                     | Some t => match n with O => [] | S m => expand m f (d_kids t) (d_off k :: chain) end
-                     | None => [(k, chain)]
-                     end) kids.
+(* `entry` of a unit: all its DIEs in section order, an imported unit's DIEs (but its root) in place of the import *)
+Definition rest_of_unit (t : die) : list die := tl (preorder t).
+Definition entries (fuel : nat) (f : forest) (root : die) : list (die * list N) := run rest_of_unit fuel f [preorder root] [].
 
 End ChildIterM.
